@@ -54,6 +54,7 @@ Section Strip.
     - reflexivity.
     - exact (fr_wp _ _ _ _ _ F).
     - intros o. rewrite !inD_strip. apply (fr_dead _ _ _ _ _ F).
+    - intros Hc. discriminate Hc.
     - intros o y Hy. apply get_strip_Some in Hy as (x & Hx & ->).
       destruct (fr_obj _ _ _ _ _ F o x Hx) as (x' & Hx' & OF). exists (norm_obj x').
       split; [rewrite get_strip, Hx'; reflexivity|].
@@ -65,6 +66,7 @@ Section Strip.
       + apply OF.
       + apply OF.
       + intros Hb Hv Hex. rewrite (of_notyet _ _ _ _ _ _ _ OF Hb Hv Hex). reflexivity.
+      + apply OF.
       + apply OF.
       + apply OF.
       + apply OF.
@@ -112,21 +114,23 @@ Section Strip.
     Fr K E (Some o) m m' ->
     (forall x x', get m o = Some x -> get m' o = Some x' ->
        o_box x <> BNotYet /\ o_vst x <> VDropping /\ o_vst x <> VUninit /\ o_vst x' <> VDropping /\
-       (o_box x = BAlloc -> ~ protected E m o x)) ->
+       (o_box x = BAlloc -> ~ protected E m o x) /\ (inD m o = true -> o_vst x' = VDropped)) ->
     Fr K E None m m'.
   Proof.
     intros F Ho. split.
     - apply F.
     - apply F.
     - apply F.
+    - apply F.
     - intros o' x Hx. destruct (fr_obj _ _ _ _ _ F o' x Hx) as (x' & Hx' & OF). exists x'. split; [exact Hx'|].
       destruct (decide (o' = o)) as [->|Hne].
-      + destruct (Ho x x' Hx Hx') as (H1 & H2 & H2' & H3 & H4). apply ObjFr_close; auto.
+      + destruct (Ho x x' Hx Hx') as (H1 & H2 & H2' & H3 & H4 & H5). apply ObjFr_close; auto.
       + split; try apply OF.
         * intros Hb Hv _. apply (of_notyet _ _ _ _ _ _ _ OF); auto. congruence.
         * intros Hv _. apply (of_dropping _ _ _ _ _ _ _ OF); auto. congruence.
         * intros _ Hv. apply (of_nodropping _ _ _ _ _ _ _ OF); auto. congruence.
         * intros _ Hv Hb. apply (of_uninit _ _ _ _ _ _ _ OF); auto. congruence.
+        * intros Hi _ Hv. apply (of_dead _ _ _ _ _ _ _ OF); auto. congruence.
         * intros _ Hb Hp. apply (of_prot _ _ _ _ _ _ _ OF); auto. congruence.
     - apply F.
   Qed.
@@ -134,15 +138,16 @@ Section Strip.
   (** back from [FrM] to [Fr]: no allocated object is list-marked before, no existing box is
       list-marked afterwards *)
   Lemma Fr_unstrip E m m' :
-    FrM K E m m' -> st_collecting m' = st_collecting m ->
+    FrM K E m m' -> st_collecting m = false -> st_collecting m' = false ->
     (forall o x, get m o = Some x -> o_box x = BAlloc -> marked x = false) ->
     (forall o x', get m' o = Some x' -> o_box x' <> BFreed -> marked x' = false) ->
     Fr K E None m m'.
   Proof.
-    intros F Hc Hm Hm'. unfold FrM in F. split.
-    - exact Hc.
+    intros F Hc Hc' Hm Hm'. unfold FrM in F. split.
+    - congruence.
     - exact (fr_wp _ _ _ _ _ F).
     - intros o. apply (fr_dead _ _ _ _ _ F o).
+    - intros Hct. congruence.
     - intros o x Hx.
       assert (Hxs : get (strip m) o = Some (norm_obj x)) by (rewrite get_strip, Hx; reflexivity).
       destruct (fr_obj _ _ _ _ _ F o _ Hxs) as (y' & Hy' & OF).
@@ -168,6 +173,8 @@ Section Strip.
           <- (norm_cleaner x), <- (norm_box x'), <- (norm_wfields x'), <- (norm_wfields x).
         apply (of_uninit _ _ _ _ _ _ _ OF Hex); rewrite ?norm_vst, ?norm_box; auto.
       + rewrite <- (norm_vst x'), <- (norm_vst x). apply OF.
+      + intros Hi Hex Hv. rewrite <- (norm_fields x'), <- (norm_fields x), <- (norm_cleaner x'), <- (norm_cleaner x).
+        apply (of_dead _ _ _ _ _ _ _ OF); rewrite ?norm_vst; auto.
       + intros _ Hb. apply (Hm' o x' Hx' Hb).
       + intros Hex Hb Hp. rewrite (Hm o x Hx Hb).
         assert (Hp' : (0 < cnt_id o E)%nat).
